@@ -63,6 +63,9 @@ structure ProcObs where
   errs : Nat := 0
   /-- per pool, in the order of the config: result lines that are not discarded samples, discarded samples, malformed ones -/
   pools : List (Nat × Nat × Nat) := []
+  /-- "option-rejected": the process refused to decode the (valid, driver-written) config and its complaint names
+  `discard_overflow`; "-" otherwise -/
+  why : String := "-"
 deriving Repr
 
 /-- one pool of a mode=proc run: `given` = what ITS section of the config says about discard_overflow, `total` = tokens of its
@@ -85,7 +88,11 @@ def judgePool (given : Option Bool) (total idx : Nat) (p : Nat × Nat × Nat) : 
 
 /-- mode=proc: `givens` = what the pool sections say about discard_overflow (one value for all pools, or one per pool). -/
 def judgeProc (givens : List (Option Bool)) (o : ProcObs) : String :=
-  if o.rc != "0" then s!"skip:pandora-process-did-not-finish-normally-rc={o.rc}"
+  -- a valid config whose pool sections leave the option out, or spell it as the documentation does, must RUN: a process that
+  -- refuses the config because of that key neither fires nor discards anything
+  if o.rc != "0" && o.why == "option-rejected" then
+    s!"fail:config-rejected:the pandora process refused a valid config (rc={o.rc}), its complaint names discard_overflow: the default put into the pool sections / the documented key is not accepted by the decoder"
+  else if o.rc != "0" then s!"skip:pandora-process-did-not-finish-normally-rc={o.rc}"
   -- "not fired but reported as a discarded sample": every result line that is not a discarded sample is a request the target
   -- received, and a discarded token never reaches the target
   -- (a line that looks like a real request although the target never saw one is a discarded sample that does not read as one)
